@@ -4,6 +4,7 @@ import fcntl
 import glob
 import hashlib
 import os
+import time
 import shutil
 import subprocess
 import sys
@@ -96,7 +97,13 @@ def _prune(keep):
         return
     ents = [e for e in ents if e != keep]
     ents.sort(key=lambda e: os.path.getmtime(os.path.join(BUILD_ROOT, e)))
-    for e in ents[:-2]:          # keep the two most recent other trees
+    now = time.time()
+    for e in ents[:-6]:          # keep the six most recent other trees (~20 MB each) ...
+        try:
+            if now - os.path.getmtime(os.path.join(BUILD_ROOT, e)) < 3600:
+                continue         # ... and never one used within the last hour: another check may be running from it
+        except OSError:
+            continue
         shutil.rmtree(os.path.join(BUILD_ROOT, e), ignore_errors=True)
 
 
